@@ -2,7 +2,7 @@
    X01 string helpers (StrUtil.tla)   X02 GetClientIP (ClientIP.tla)   X03 FirstIP/LastIP (IpRange.tla)
    X04 Nano handler line format (NanoLine.tla, scenarios from JsonLineMC)   X05 ResponseWriter / reply helpers (HttpHelpers.tla)
    X06 Logger front end (LogFront.tla)   X07 config value texts + usage (ValueLit.tla)   X08 ReadRand, ansi texts, SliceContain (Misc.tla)
-   X09 colour on versus colour off (Colour.tla)"""
+   X09 colour on versus colour off (Colour.tla)   X10 struct tag syntax (TagParse.tla)"""
 import json
 import vlib
 from vlib import judge
@@ -57,6 +57,13 @@ def run(ctx, which):
         bad, _, _ = judge(ctx, "logger", "Colour", rows, nshards=2, workers=2, timeout=600)
         what = lambda c: "%s handler: plain %r colourful %r (%d AnsiString values with a prefix)" % (
             c["kind"], bytes(c["plain"]).decode("latin1"), bytes(c["colour"]).decode("latin1"), c["nansi"])
+    elif which == "X10":
+        ctx.run([hb, "-mode", "tags", "-maxlen", "4" if q else "5", "-out", out], timeout=600)
+        rows = vlib.read_ndjson(out)
+        bad, _, _ = judge(ctx, "config", "TagParse", rows, per_shard=2000, workers=1, timeout=900)
+        what = lambda c: "tag %r on field %s: rejected=%s found=%s name=%r default=%r usage=%r" % (
+            bytes(c["tag"]).decode("latin1"), bytes(c["field"]).decode(), c["rejected"], c["found"], bytes(c["name"]).decode("latin1"),
+            bytes(c["def"]).decode("latin1"), bytes(c["usage"]).decode("latin1"))
     elif which == "X06":
         ctx.run([hb, "-mode", "front", "-out", out], timeout=600)
         rows = vlib.read_ndjson(out)
